@@ -173,6 +173,7 @@ func (n *NilRules) needsNonNil(fn *ssa.Function, idx int) bool {
 	}
 	par := fn.Params[idx]
 	fc := n.A.Ctx(fn)
+	fc.ensureConds()
 	atom := "isnil(" + fc.AP(par) + ")"
 	for _, b := range fn.Blocks {
 		for _, in := range b.Instrs {
@@ -293,18 +294,18 @@ func (n *NilRules) callersImply(fc *FuncCtx, ap string, depth int) (bool, string
 			idx = i
 		}
 	}
-	sites := n.A.P.StaticCallersOf(fn)
+	sites := n.A.P.CallersOf(fn)
 	if len(sites) == 0 {
 		return false, ""
 	}
 	B := n.A.B
 	for _, cs := range sites {
 		cfc := n.A.Ctx(cs.Caller)
-		args := cs.Instr.Common().Args
-		if idx >= len(args) {
+		arg := cs.Arg(idx)
+		if arg == nil {
 			return false, ""
 		}
-		cap := cfc.AP(args[idx]) + rest
+		cap := cfc.AP(arg) + rest
 		atom := "isnil(" + cap + ")"
 		cfc.ensureConds()
 		blk := cs.Instr.(ssa.Instruction).Block()
